@@ -1,1 +1,5 @@
--- stub: no theorems of C11 yet
+import WmModel.Props.C11
+#print axioms Wm.GcTopic.exactly_one_sender
+#print axioms Wm.GcTopic.sender_count_eq
+#print axioms Wm.GcTopic.mid_publish
+#print axioms Wm.GcTopic.subscribe_excluded_during_publish
